@@ -3,6 +3,7 @@ import WhVerif.Model.C07
 import WhVerif.Spec.C07
 import WhVerif.Model.C07Pipe
 import WhVerif.Model.C07Opts
+import WhVerif.Model.C07Cov
 namespace WhVerif.Driver.C07
 open Lean WhVerif.Proto WhVerif.C07
 
@@ -78,8 +79,34 @@ def handlePipe (op : String) (j : Json) : Option Json :=
     | _, _ => some badInput
   else none
 
+/-- an operation on the coverage monitor: `["add", b, e, times]` or `["max", b, e]` -/
+def parseMonOp (j : Json) : Option (Bool × Nat × Nat × Nat) := do
+  match (← asArr? j) with
+  | [o, b, e, t] => if (← asStr? o) == "add" then some (true, ← asNat? b, ← asNat? e, ← asNat? t) else none
+  | [o, b, e] => if (← asStr? o) == "max" then some (false, ← asNat? b, ← asNat? e, 0) else none
+  | _ => none
+
+def monAnsJson : Mon.Ans → Json
+  | .val m => ofNat m
+  | .valueError => Json.str "ValueError"
+  | .indexError => Json.str "IndexError"
+
 def handle (op : String) (j : Json) : Option Json :=
-  if op == "c07.outcomes" then
+  if op == "c07.covmon" then
+    -- `CovMonitor` as coded (array of counters): the answers of the `max_coverage_in_range` queries of an operation
+    -- sequence; `width` absent = Python ints (the code), `width` = b: b-bit counters that wrap
+    match getNat? j "length", (getList? j "ops").bind (·.mapM parseMonOp) with
+    | some n, some ops => some (ofList monAnsJson (Mon.runOps (getNat? j "width") (Mon.init n) ops))
+    | _, _ => some badInput
+  else if op == "c07.guarded" then
+    -- the guarded use of the monitor (`max >= k` test, then `add_read`) on a list of ranges: which calls are admitted
+    match getNat? j "length", getNat? j "k", (getList? j "calls").bind (·.mapM natList?) with
+    | some n, some k, some cs =>
+      let calls := cs.map (fun c => (c.getD 0 0, c.getD 1 0))
+      let st := Mon.guardedRun (getNat? j "width") k n calls
+      some (Json.mkObj [("admitted", ofNat st.admitted.length), ("coverage", ofNatList st.cov)])
+    | _, _, _ => some badInput
+  else if op == "c07.outcomes" then
     match parseReads j "reads", getNat? j "k", getBool? j "bridging", getBool? j "fixed" with
     | some reads, some k, some br, some fixed =>
       let paths := explore fixed reads k br
